@@ -7,4 +7,4 @@ package truthsocial
 
 
 // every other function of the package (helpers added later included)
-//@ sweepall C10 idx slice div assert
+//@ sweepall C10 idx slice div assert extnil
